@@ -115,6 +115,11 @@ fn run_case(c: &Case, rng: &mut Rng, rep: &mut Report, replay: &dyn Fn() -> Stri
             return "undecodable";
         }
     }
+    // a mandatory extension with more than 255 data bytes cannot be described to a real receiver
+    // (MandatoryHeaderExt carries a u8): the sender side has been judged, stop here
+    if c.chain.entries.iter().any(|e| e.id < 0x100 && e.data.len() > 255) {
+        return "sender-only-ok";
+    }
     // ---- complete the train
     let mut pkts = vec![pkt];
     let mut cx = ctx;
@@ -211,6 +216,14 @@ fn run_case(c: &Case, rng: &mut Rng, rep: &mut Report, replay: &dyn Fn() -> Stri
         let mut frame = pkts[0].clone();
         frame.extend_from_slice(&follow);
         rep.eval();
+        // the packet is dropped several times in a row (more often than the receiver has storage buffers):
+        // each drop must leave the receiver as it was
+        for _ in 0..3 {
+            let r0 = dec_guard(&mut dec2, &frame);
+            if !matches!(&r0, Ok(Err((_, cons))) if *cons == pkts[0].len()) {
+                break;
+            }
+        }
         let r = dec_guard(&mut dec2, &frame);
         match &r {
             Ok(Err((_, cons))) if *cons == pkts[0].len() => {
@@ -374,7 +387,17 @@ impl Property for Prop {
                     let plen = rng.below(65);
                     let pdu = gen_pdu(&mut rng, plen, 0);
                     let full = hdr + plen + 2;
-                    for bl in 5..=full {
+                    // every buffer size for ordinary chains; a sample around both ends when a chain carries a
+                    // very large mandatory data block
+                    let sizes: Vec<usize> = if full <= 700 {
+                        (5..=full).collect()
+                    } else {
+                        let mut v: Vec<usize> = (5..70).collect();
+                        v.extend(full.saturating_sub(45)..=full);
+                        v.extend([4095usize, 4096, 4097, 4098, 65535, 65536]);
+                        v
+                    };
+                    for bl in sizes {
                         if crate::expired() {
                             return;
                         }
